@@ -55,12 +55,19 @@ class F(State):  # unusual but legal: instances are falsy (truthiness must never
         return 0
 
 
+from haiway import Missing as _Missing  # noqa: E402
+
+
+class M(State):  # no class-level default, yet constructible without arguments: the annotation admits Missing
+    v: int | _Missing
+
+
 class U(State):  # required attribute of a union type: its validation failure is reported as an exception GROUP
     v: int | str
 
 
-FAMILY: dict[str, type] = {"A": A, "B": B, "R": R, "A2": A2, "G[int]": G[int], "G[str]": G[str], "G": G, "F": F, "U": U}
-DEFAULTABLE = {"A", "B", "A2", "F"}  # constructible without arguments
+FAMILY: dict[str, type] = {"A": A, "B": B, "R": R, "A2": A2, "G[int]": G[int], "G[str]": G[str], "G": G, "F": F, "U": U, "M": M}
+DEFAULTABLE = {"A", "B", "A2", "F", "M"}  # constructible without arguments
 
 
 def make_state(sv) -> State:
@@ -206,7 +213,7 @@ class ProgFalsy(ProgErr):
         return 0
 
 
-EXC = {"Exception": ProgErr, "ExcSubclass": ProgErrSub, "BaseExc": ProgBase, "FalsyExc": ProgFalsy}
+EXC = {"Exception": ProgErr, "ExcSubclass": ProgErrSub, "BaseExc": ProgBase, "FalsyExc": ProgFalsy, "GenExit": GeneratorExit}
 
 
 _UNSET = "unset"
@@ -229,6 +236,7 @@ class Run:
         self.prog = prog
         self.loop = loop
         self.log: list = []
+        self.last_metric: dict = {}  # metric type name -> (record id, instance) of the latest freshly made record
         self.instances: dict = {}  # key -> State instance; key = (path, "s", i) | (path, "d", j, i)
         self.labels: dict = {}  # id(instance) -> key
         self.sent = sentinels()
@@ -482,9 +490,15 @@ class Run:
     # ------------------------------------------------------------------ metrics / logs (C10, C19)
     def record(self, op, path, mscope):
         T = METRICS[op["type"]]
-        rid = len(self.records) + 1
-        self.records.append(rid)
-        value = T(ids=(rid,))
+        prev = self.last_metric.get(op["type"]) if op.get("reuse") else None
+        if prev is not None:
+            # the very same instance recorded again (a constant such as `ONE = Count(1)`): one more record like any other
+            rid, value = prev
+        else:
+            rid = len(self.records) + 1
+            self.records.append(rid)
+            value = T(ids=(rid,))
+            self.last_metric[op["type"]] = (rid, value)
         raised = None
         try:
             if op["merge"] == "default":
@@ -654,7 +668,7 @@ def execute(prog, inject_at=None, releases=(), run_cls=Run, after=None):
     else:
         out["outcome"], out["exc"] = res.value
         exc = out["exc"]
-        if out["outcome"] == "raise" and not isinstance(exc, (ProgErr, ProgBase, DispErr, asyncio.CancelledError, BaseExceptionGroup)):
+        if out["outcome"] == "raise" and not isinstance(exc, (ProgErr, ProgBase, DispErr, GeneratorExit, asyncio.CancelledError, BaseExceptionGroup)):
             from hv.core import _haiway_frame
 
             if _haiway_frame(exc.__traceback__) is None:
@@ -666,7 +680,7 @@ def execute(prog, inject_at=None, releases=(), run_cls=Run, after=None):
 def sv_strategy():
     from hypothesis import strategies as st
 
-    names = ["A", "A", "B", "R", "A2", "G[int]", "G[str]", "G", "F", "U"]
+    names = ["A", "A", "B", "R", "A2", "G[int]", "G[str]", "G", "F", "U", "M"]
     return st.builds(lambda n, v: {"type": n, "v": v}, st.sampled_from(names), st.integers(1, 9))
 
 
@@ -679,8 +693,11 @@ def simple_disp_strategy():
 
     ys = st.one_of(st.none(), sv_strategy(), st.lists(sv_strategy(), min_size=0, max_size=2))
     beh = st.sampled_from([OK_BEH, OK_BEH, {"b": "suspend_ok", "t": 0.5}])
+    # an exit that returns True ("handled", as contextlib-made managers do when they catch what is thrown in) is still
+    # not a permission to swallow anything
+    exit_beh = st.sampled_from([OK_BEH, OK_BEH, {"b": "suspend_ok", "t": 0.5}, {"b": "ok", "ret": True}])
     return st.builds(
-        lambda e, y, x, a: {"enter": e, "yields": y, "exit": x, "as": a}, beh, ys, beh, st.sampled_from(["list", "list", "iter", "gen"])
+        lambda e, y, x, a: {"enter": e, "yields": y, "exit": x, "as": a}, beh, ys, exit_beh, st.sampled_from(["list", "list", "iter", "gen"])
     )
 
 
